@@ -359,7 +359,7 @@ fn native_zipatch_create_apply() {
 
 //@use_common
 
-//@unit props=C17 label=B tier=quick native=1 fn=patch::ZiPatch::apply bound="by execution on temporary directories: a patch created from two small trees (two added files of 5 and 300 bytes, one removed file): every truncation and 7 single-byte corruptions per byte except the 9 bytes 'SQPK'+size+operation letter of each chunk (turning a file operation into an expand/delete-data command would make apply write gigabytes of zeros); plus delete-data, expand-data, add-data and header-update commands placed before any target info, and a missing patch file"
+//@unit props=C17 label=B tier=quick native=1 fn=patch::ZiPatch::apply bound="by execution on temporary directories: a patch created from two small trees (two added files of 5 and 300 bytes, one removed file): every truncation and 7 single-byte corruptions per byte except the 9 bytes 'SQPK'+size+operation letter of each chunk (turning a file operation into an expand/delete-data command would make apply write gigabytes of zeros); plus every multiple of 16 up to 1024 in the size field of each file block header, delete-data, expand-data, add-data and header-update commands placed before any target info, and a missing patch file"
 //@desc damaged patch files (truncated anywhere, any byte of chunk sizes, names, block headers or checksums damaged, commands before target info, missing file) make apply return Ok or Err, never panic
 #[test]
 fn native_zipatch_damaged_nopanic() {
@@ -387,6 +387,13 @@ fn native_zipatch_damaged_nopanic() {
         let o = patch[i];
         for c in [0u8, 1, 0x7F, 0x80, 0xFF, o.wrapping_add(1), o.wrapping_sub(1)] { if c != o { w[i] = c; s.run(&f, &w, &format!("byte {i} changed from {o:#04x} to {c:#04x}")); } }
         w[i] = o;
+    }
+    // the header-size field of every file block set to each multiple of 16 up to 1024 (a size that makes the reader seek backwards must not make apply loop)
+    for i in 0..patch.len().saturating_sub(16) {
+        if patch[i + 4..i + 12] == [0, 0, 0, 0, 0x00, 0x7D, 0, 0] && patch[i + 2..i + 4] == [0, 0] {
+            for k in 0..=64u32 { let mut w2 = patch.clone(); w2[i..i + 4].copy_from_slice(&(k * 16).to_le_bytes()); s.run(&f, &w2, &format!("block header at {i}: size field set to {}", k * 16)); }
+            for big in [0x7FFF_FFFFu32, 0x8000_0000, 0xFFFF_FFF0, 0xFFFF_FFFF] { let mut w2 = patch.clone(); w2[i..i + 4].copy_from_slice(&big.to_le_bytes()); s.run(&f, &w2, &format!("block header at {i}: size field set to {big:#x}")); }
+        }
     }
     // data commands before any target info (block number 1 = 128 bytes)
     for letter in [b'D', b'E', b'A', b'H'] {
